@@ -17,6 +17,8 @@ THEOREMS = [
     "Mesa.Cont.C10_exp_frame",
     "Mesa.Cont.C10_exp_index_maps_consistent",
     "Mesa.Cont.C10_exp_positions_inside",
+    "Mesa.Cont.C10_legacy_valid_calls_succeed",
+    "Mesa.Cont.C10_exp_valid_calls_succeed",
     "Mesa.Cont.C10_legacy_neighbors_exact",
     "Mesa.Cont.C10_legacy_neighbors_mem",
     "Mesa.Cont.C10_exp_radius_exact",
@@ -55,7 +57,7 @@ ASSUMPTIONS = [
     "a ContinuousSpaceAgent is assigned a position before its position is read or queried",
     "moves/removals through the experimental API target agents that are in the space",
 ]
-RULE = ("random histories over both classes (50/50): bounds with negative / non-unit origins and sizes 1/64 .. 15.6, torus on/off, "
+RULE = ("random histories over both classes (50/50; 10% from the rejecting-call stream of C18): bounds with negative / non-unit origins and sizes 1/64 .. 15.6, torus on/off, "
         "experimental: 2-D/3-D and initial capacities {0,1,2,3,5,50,100}; 4-45 ops from place/new+set, move/set (12% per-axis out of bounds, "
         "coincident and boundary positions), remove, pos, agents, radius / k-nearest (k in 0..n+1, often n) / neighbour queries incl. on the "
         "empty space and right after a cached read + move, distances and heading/difference vectors; radii aimed at exact agent distances; "
@@ -66,7 +68,7 @@ HEADER_LINES = 1
 
 def generate(rng, tier, count):
     for _ in range(count):
-        yield C.gen_scenario(rng)
+        yield C.gen_scenario(rng, reject_rich=rng.random() < 0.1)
 
 
 def generate_rejecting(rng, tier, count):
